@@ -23,7 +23,7 @@ func init() {
 // the environment-level steps)
 
 type scriptStep struct {
-	A    string   `json:"a"` // call | nsOK | nsFail | fail | send
+	A    string   `json:"a"` // call | nsOK | nsFail | fail | silent | detect | send
 	Kind string   `json:"kind,omitempty"`
 	S    string   `json:"s,omitempty"`
 	What string   `json:"what,omitempty"` // resub | batch
@@ -127,6 +127,21 @@ func replayOne(sc script, deadline time.Duration, attempt int) replayResult {
 			f.mu.Unlock()
 			if !ok {
 				s.markDiverged(i, "no established stream to break")
+			}
+			s.waitFor(func() bool { return false }, settleWindow/8)
+		case "silent":
+			f.mu.Lock()
+			ok := f.silentLocked()
+			f.mu.Unlock()
+			if !ok {
+				s.markDiverged(i, "no established stream to silence")
+			}
+		case "detect":
+			f.mu.Lock()
+			ok := f.detectLocked()
+			f.mu.Unlock()
+			if !ok {
+				s.markDiverged(i, "no silent stream")
 			}
 			s.waitFor(func() bool { return false }, settleWindow/8)
 		case "send":
